@@ -19,6 +19,11 @@ import RuxModel.Model.URLBuild
                                                              force are the accumulated ones, the capacity the LAST one given.
                                                              <form> (which option functions, in which order) is for the
                                                              implementation side only.
+    new: mask bit 128 (UseEncodedPath) is for the implementation side only: the path of a `serve` op is then the
+         escaped path of the request, which is the path the router looks up
+    rereg <id>                       -> reject | noroute | unsupported    Router.AddRoute with the SAME route value that
+                                               `reg <id>` registered: a dynamic route with variables is refused (its variable
+                                               names were appended a second time: "vars: 2n, groups: n") and nothing changes
     gvar <name> <regex>              -> ok     rux.SetGlobalVar(name, regex) is in force for the registrations that
                                                follow in this case (a plain `{name}` is resolved when its route is registered)
 -/
@@ -34,6 +39,7 @@ structure RouteSt where
   names : Names := []     -- the name index (C15)
   mwIds : List Nat := []  -- routes registered with a route middleware (it writes `M<id>;` before Next())
   routes : List RouteM := []   -- registered routes by id (for BuildURL)
+  raRegs : List RouteM := []   -- routes registered by `reg` ops, newest first (for `rereg`)
   gvars : GVars := []          -- `gvar` ops of this case, newest first (they shadow the map of the source text)
 
 /-- the global path variables in force now -/
@@ -114,7 +120,7 @@ def routeStep (st : RouteSt) : List String → RouteSt × String
         let internal :=
           if r.static then "S" else
           s!"{tierOf r} {Bytes.toHex r.info.start} {Bytes.toHex r.info.first} {Bytes.toHex r.info.regexStr} {hexList r.info.names}"
-        ({ st with rt := rt', runeSens := st.runeSens || (!r.static && r.info.runeSens) }, s!"ok {Bytes.toHex r.path} ;; {internal}")
+        ({ st with rt := rt', raRegs := r :: st.raRegs, runeSens := st.runeSens || (!r.static && r.info.runeSens) }, s!"ok {Bytes.toHex r.path} ;; {internal}")
       | .reject _ => (st, "reject")
       | .unsupported => ({ st with tainted := true }, "unsupported")
     | _, _, _ => (st, "bad-op")
@@ -199,6 +205,20 @@ def routeStep (st : RouteSt) : List String → RouteSt × String
           let (res, rt') := quickMatch st.rt methodGET path
           ({ st with rt := rt' }, s!"{Bytes.toHex path} {kvStr (sortKVs queries)} {matchObs res}")
     | _, _ => (st, "bad-op")
+  | ["rereg", id] =>
+    if st.tainted then (st, "unsupported") else
+    match id.toNat? with
+    | some id =>
+      match st.raRegs.find? (fun r => r.id = id) with
+      | none => (st, "noroute")
+      | some r =>
+        -- parseParamRoute appends the variable names to the route value once more before goodRegexGroups compares
+        -- their number with the capturing groups: n + n ≠ n for n ≥ 1, the registration is refused and no table changes.
+        -- (a static route or a dynamic one without variables would be accepted a second time; a `gvar` op may have
+        -- changed what a plain variable compiles to: neither is modelled)
+        if !r.static && !r.info.names.isEmpty && st.gvars.isEmpty then (st, "reject")
+        else ({ st with tainted := true }, "unsupported")
+    | none => (st, "bad-op")
   | ["gvar", name, re] =>
     match Bytes.ofHex name, Bytes.ofHex re with
     | some name, some re => ({ st with gvars := (name, re) :: st.gvars }, "ok")
